@@ -147,6 +147,17 @@ def fam_pipeline_fail(seed, big):
                     sc["tags"][0] = "we300000"   # (the reporting child's tag is its second argument)
                     out.append(sc)
                     i += 1
+    # a started command with a stderr pipe of its own is busy writing to it while an earlier one pushes data through the
+    # pipeline, when a later command fails to start
+    for n, own, k in ((3, 1, 2), (4, 2, 3), (4, 1, 3), (3, 0, 1)):
+        for term, stdin, stdout in (("popen", "inherit", "pipe"), ("join", "inherit", "null"), ("stream_stdout", "inherit", "pipe"),
+                                    ("stream_stdin", "pipe", "null")):
+            sc = pl(i, n, "left", stdin, stdout, "inherit", term, 0, fail_at=k, detached=False, rng=rng)
+            sc["stream"] = True
+            sc["own_stderr"] = own
+            sc["tags"][own] = "we300000"
+            out.append(sc)
+            i += 1
     return out
 
 
